@@ -294,6 +294,8 @@ impl Core {
                 let context = self.context.clone();
                 let tls_listener = tls_listener.clone();
                 async move {
+                    #[cfg(trusttunnel_verif)]
+                    let verif_conn_id = client_id.to_string();
                     log_id!(trace, client_id, "Starting TLS handshake");
                     let handshake_timeout = context.settings.tls_handshake_timeout;
                     match tokio::time::timeout(handshake_timeout, tls_listener.listen(stream))
@@ -319,6 +321,8 @@ impl Core {
                         }
                         Err(e) => log_id!(trace, client_id, "TLS handshake failed: {}", e),
                     }
+                    #[cfg(trusttunnel_verif)]
+                    crate::verif_emit!("ConnDone", "\"id\":\"{}\"", verif_conn_id);
                 }
             });
         }
@@ -450,10 +454,14 @@ impl Core {
         .await
         {
             Ok(Ok(s)) => {
+                #[cfg(trusttunnel_verif)]
+                crate::verif_emit!("TlsAcceptEnd", "\"id\":\"{}\",\"res\":\"ok\"", client_id);
                 log_id!(debug, client_id, "New TLS client: {:?}", s);
                 s
             }
             Ok(Err(e)) => {
+                #[cfg(trusttunnel_verif)]
+                crate::verif_emit!("TlsAcceptEnd", "\"id\":\"{}\",\"res\":\"err\"", client_id);
                 return Err((client_id, format!("TLS connection failed: {}", e)));
             }
             Err(_) => {
